@@ -233,6 +233,7 @@ pub struct RangeProof {
 /// all accepted when reading.
 pub(crate) mod bulletproof_serde {
     use super::RangeProofBulletproof;
+    use blsful::inner_types::G1Affine;
     use serde::de::{Error as DError, SeqAccess, Visitor};
     use serde::{Deserializer, Serialize, Serializer};
     use std::fmt::Formatter;
@@ -263,6 +264,20 @@ pub(crate) mod bulletproof_serde {
             }
 
             fn visit_bytes<E: DError>(self, v: &[u8]) -> Result<Self::Value, E> {
+                // The bulletproofs decoder unwraps the L/R points of the inner product
+                // proof and panics on a byte string that is not a curve point; check
+                // that part here so that corrupted input is an error.
+                const HEAD: usize = 4 * 48 + 3 * 32 + 2 * 32;
+                if v.len() < HEAD || (v.len() - HEAD) % 96 != 0 {
+                    return Err(E::custom("invalid range proof"));
+                }
+                for chunk in v[HEAD..].chunks_exact(48) {
+                    let mut point = [0u8; 48];
+                    point.copy_from_slice(chunk);
+                    if bool::from(G1Affine::from_compressed(&point).is_none()) {
+                        return Err(E::custom("invalid range proof"));
+                    }
+                }
                 RangeProofBulletproof::from_bytes(v).map_err(|_| E::custom("invalid range proof"))
             }
 
